@@ -242,7 +242,7 @@ func runC04(c *fw.Ctx) {
 	for v := int64(1); v <= int64(nrounds); v++ {
 		rd, next := genRound(c, g, v, cur, grave)
 		if v == fatAt {
-			rd, next = genFatRound(c, v, cur, 280+r.Intn(200))
+			rd, next = genFatRound(c, v, cur, []int{300, 450, 700, 1100}[r.Intn(4)]+r.Intn(7))
 		}
 		c.Tracef("%s", rd.String())
 		grocksdb.CopyDisk(disk, tmp+"/pre")
@@ -589,7 +589,7 @@ func init() {
 		ID:    "C04",
 		Level: "fault_enumeration",
 		Rule: "each case is a history of 3..10 rounds on a persistent store (real PNodeDB over the logging/crashing grocksdb stand-in). A round = block trie layered over the store at the previous saved root, 1..4 child transactions (1..6 inserts/deletes each, including delete-then-recreate of " +
-			"identical content, re-creation of content deleted in earlier rounds, unchanged re-writes) merged or discarded, then SaveChanges(includeDeletes=false) and RecordDeadNodes; random PruneBelowVersion in between; about every 32nd history contains one fat round (280..480 inserts, several hundred changed nodes in one save). After each save every retained root is re-read on a re-opened store " +
+			"identical content, re-creation of content deleted in earlier rounds, unchanged re-writes) merged or discarded, then SaveChanges(includeDeletes=false) and RecordDeadNodes; random PruneBelowVersion in between; about every 32nd history contains one fat round (300..1100 inserts: several hundred to more than a thousand changed nodes in one save). After each save every retained root is re-read on a re-opened store " +
 			"(HasMissingNodes, lookups, Iterate, raw stored bytes through the harness' parser). For EVERY prefix length i=0..W of the save's physical write stream the round is re-executed from a copy of the pre-round disk with the store crashing after i writes; after restart every earlier " +
 			"retained root must be fully readable and re-executing + re-saving the round must give the same root and a complete state. non-trivial/distinct = distinct (history, round, crash index, root) points",
 		Cases: func(tier string) int {
